@@ -230,3 +230,18 @@ contract(IRFS + "._infer_inverse_3tuple_features", params={"an_instance": Name},
     loops={k: {"invariant": ["forall(Int, lambda j: implies(0 <= j and j < len(result), result[j][0] in %s[an_instance][2] and result[j][1] in %s[an_instance][2][result[j][0]]))" % (ID2, ID2)]} for k in (0, 1, 2)},
     ghost={"__locals__": {"result": List(F3)}}, props=["C01", "C14", "C02", "C03"],
     note="inverse twin; must stay a list (it is consumed once per class of the instance)")
+
+# ---- which triples reach the counting steps (C14: only nodes are counted as incoming links; C10/C01: exactly the tracked nodes) -----------
+REL = "result == ((has_class(an_instance, 'IRI') or has_class(an_instance, 'BNode')) and %s in {0})" % ELEM_KEY.format("an_instance")
+contract(AFDS + "._is_relevant_instance", params={"an_instance": ANode}, returns=Bool, self_type=Strat,
+    ensures=[REL.format(ID)], raises=[], modifies=[], props=["C14", "C10", "C01"],
+    note="a term is counted only if it is an IRI or blank node present in the instance dictionary: a literal is never an instance, whatever its text")
+contract(IRFS + "._is_relevant_instance", params={"an_instance": ANode}, returns=Bool, self_type=Strat2,
+    ensures=[REL.format(ID2)], raises=[], modifies=[], props=["C14"],
+    note="the inherited test verified against the inverse strategy's dictionary: a literal object is never counted as an incoming link")
+contract(DFS + ".is_a_relevant_triple", params={"a_triple": Triple}, returns=Bool, self_type=Strat,
+    ensures=["result == (%s and %s in %s)" % (SUBJ_NODE, SK, ID)], raises=[], modifies=[], props=["C01", "C10"],
+    note="direct strategy: a triple is profiled exactly when its subject is a tracked node")
+contract(IRFS + ".is_a_relevant_triple", params={"a_triple": Triple}, returns=Bool, self_type=Strat2,
+    ensures=["result == ((%s and %s in %s) or (%s and %s in %s))" % (SUBJ_NODE, SKEY2, ID2, OBJ_NODE, OKEY2, ID2)], raises=[], modifies=[], props=["C14"],
+    note="inverse strategy: a triple is profiled exactly when its subject or its (non-literal) object is a tracked node")
